@@ -7,7 +7,7 @@
 From Coq Require Import List NArith Bool.
 From Frugal Require Import Bytes Wire Skip Values Desc Spec Encode Decode Checks Tags State Bitset Alloc DescMap Conc LegacyDefs.
 From Frugal.gen Require Import Params.
-From Frugal.proofs Require Import GenOk BytesWire EncodeSpec SizeExact SkipPut DecodeSafe DecodeRefines RoundTrip Corollaries StateProofs BitsetProofs AllocProofs DescMapProofs ConcProofs BufferContract.
+From Frugal.proofs Require Import GenParams Corollaries.
 From Frugal.props Require Import Examples.
 Import ListNotations.
 
@@ -27,3 +27,8 @@ Example C14_instance :
   decode_object env_ex [] 0 (put (WStruct [(2, WStr [120; 121]); (5, WI32 0)] [])) (fresh env_ex 0)
   = DOk (VT [VS 0; VB false [120; 121]; VL None; VM None; VS 0; VP None; VL None] [], 17%N) [].
 Proof. vm_compute. reflexivity. Qed.
+
+(* the side conditions on the generated constants and tables that the theorems above assume hold
+   for what the translator read from the sources of this run *)
+Theorem C14_side_conditions : params_ok = true.
+Proof. exact params_ok_holds. Qed.
